@@ -28,7 +28,8 @@ def main():
     os.makedirs(dest, exist_ok=True)
     out = os.path.join(SRC, "out_" + pid)
     for src, dst in ((letter + ".patch.diff", "patch.diff"), (letter + "_demo_test.go", "demo_test.go.txt"), (letter + ".meta.json", "meta.json")):
-        if os.path.exists(os.path.join(out, src)):
+        # (an existing copy wins: patches are kept rebased onto /repo's HEAD under /verif/seeded)
+        if os.path.exists(os.path.join(out, src)) and not os.path.exists(os.path.join(dest, dst)):
             shutil.copy(os.path.join(out, src), os.path.join(dest, dst))
     patch = os.path.join(dest, "patch.diff")
     results = {}
